@@ -447,7 +447,32 @@ def r24_spillfmt(repo, sink):
                 elif w and not r:
                     sink.bad("R24", f"mask:{up.qualname}", up, "writer persists the mask but the reader never rebuilds a masked array")
                 else:
-                    sink.ok("R24", f"mask:{pk.qualname}", pk, "writer and reader agree on masked payloads")
+                    # the plain np.save path must exclude *every* masked array: the guard has to be a
+                    # type test, not a test for currently masked cells
+                    plain = [n for n in saves if call_name(n) == "save"]
+                    guard_bad = None
+                    for sv in plain:
+                        cur = sv
+                        guard = None
+                        while cur is not pk.node:
+                            par = cur._parent
+                            if isinstance(par, ast.If) and (cur in par.body or cur in par.orelse):
+                                guard = par
+                                break
+                            cur = par
+                        if guard is None:
+                            guard_bad = "np.save of the magnitude is not guarded by a masked-array type test"
+                            continue
+                        t = U(guard.test)
+                        type_test = any(k in t for k in ("isMaskedArray", "isMA(", "ma.isarray", "is_masked_array", "MaskedArray"))
+                        value_test = any(k in t for k in ("ma.is_masked(", "has_masked_values", ".mask.any", "np.any("))
+                        if value_test or not type_test:
+                            guard_bad = (f"the branch to np.save is chosen by `{t}`, a test for currently masked cells / not a "
+                                         "type test: a masked array without masked cells still reaches np.save (NotImplementedError)")
+                    if guard_bad and makes_masked:
+                        sink.bad("R24", f"mask-guard:{pk.qualname}", pk, guard_bad)
+                    else:
+                        sink.ok("R24", f"mask:{pk.qualname}", pk, "writer and reader agree on masked payloads")
         # (b) units: domain at the pack site == domain of the label applied by _unpack
         label = _label_domain(repo, c, up)
         for site_f, dom in _pack_sites(repo, c):
